@@ -28,6 +28,7 @@ import subprocess
 import sys
 import time
 import traceback
+import warnings
 from concurrent.futures import ProcessPoolExecutor, wait, FIRST_COMPLETED
 
 from dsim.tape import Tape
@@ -90,6 +91,7 @@ def digest_of(obj):
 def run_once(mod, plan, sched):
     """execute (plan, sched tape list or Tape) -> ("ok", info) | ("viol", sig, msg, tape)"""
     tape = sched if isinstance(sched, Tape) else Tape(replay=sched)
+    warnings.simplefilter("ignore")     # pysmt.shortcuts re-enables warnings at import
     gc_control = getattr(mod, "GC_CONTROL", False)
     if gc_control:
         # finalisers of simulated streams must never run at an allocation-dependent
@@ -297,6 +299,7 @@ def _ensure_env():
         env = dict(os.environ)
         env.setdefault("PYTHONHASHSEED", "0")
         env["DSIM_REEXEC"] = "1"
+        env.setdefault("PYTHONWARNINGS", "ignore")
         env["PYTHONPATH"] = want_pp + (os.pathsep + env["PYTHONPATH"] if env.get("PYTHONPATH") else "")
         env.pop("PYTHONDONTWRITEBYTECODE", None)
         env["PYTHONPYCACHEPREFIX"] = os.path.join(VERIF_DIR, ".pycache")
@@ -396,6 +399,7 @@ def sweep(pid, tier, base_seed, runs=None, jobs=None, budget_s=None, write_evide
         by_sig.setdefault(v["sig"], []).append(v)
     reported = []
     known_matched = []
+    unreproducible = []
     for sig in sorted(by_sig):
         vs = by_sig[sig]
         full = [v for v in vs if "plan" in v]
@@ -416,13 +420,20 @@ def sweep(pid, tier, base_seed, runs=None, jobs=None, budget_s=None, write_evide
         rc = subprocess.run([sys.executable, os.path.join(VERIF_DIR, "check"), pid, "--replay", path, "--quiet"],
                             capture_output=True, text=True, timeout=300)
         if "VIOLATION property=%s" % pid not in rc.stdout:
-            print("HARNESS-ERROR property=%s replay of %s did not reproduce in a fresh process:\n%s%s"
-                  % (pid, path, rc.stdout, rc.stderr))
-            return 2
+            # never report what cannot be replayed; keep looking at the other signatures
+            print("HARNESS-WARNING property=%s signature %s: replay %s did not reproduce in a fresh process "
+                  "(not reported as a violation):\n%s%s" % (pid, sig, path, rc.stdout[-400:], rc.stderr[-400:]))
+            unreproducible.append(sig)
+            continue
         print("violation %s: %s" % (sig, v["msg"]))
         print("VIOLATION property=%s replay=%s" % (pid, path))
         reported.append({"signature": sig, "runs": len(vs), "replay": path})
         exit_code = 1
+
+    if unreproducible and not reported:
+        print("HARNESS-ERROR property=%s: %d violation signature(s) seen in the sweep could not be replayed: %s"
+              % (pid, len(unreproducible), unreproducible))
+        exit_code = 2
 
     if write_evidence:
         samples = total["samples"][:3]
